@@ -223,4 +223,45 @@ theorem toTriple_short (c h w : Nat) (l : List β) (hl : l.length < c * h * w) :
   obtain ⟨e, he⟩ := takeMats_err h w c l (by rw [← Nat.mul_assoc]; exact hl)
   exact ⟨e, by unfold toTriple; simp [he]⟩
 
+/-- position `i * w + j` of the concatenation of rows of equal length `w` is element `j` of row `i` -/
+theorem flatten_uniform_getElem? (m : List (List β)) (w : Nat) (hm : ∀ r ∈ m, r.length = w)
+    (i j : Nat) (hj : j < w) : m.flatten[i * w + j]? = (m[i]?).bind (·[j]?) := by
+  induction m generalizing i with
+  | nil => simp
+  | cons r rs ih =>
+    have hr : r.length = w := hm r (List.mem_cons_self ..)
+    cases i with
+    | zero =>
+      simp only [List.flatten_cons, Nat.zero_mul, Nat.zero_add, List.getElem?_cons_zero, Option.bind_some]
+      exact List.getElem?_append_left (by omega)
+    | succ n =>
+      simp only [List.flatten_cons, List.getElem?_cons_succ]
+      have e : (n + 1) * w + j = r.length + (n * w + j) := by rw [Nat.succ_mul, hr]; omega
+      rw [e, List.getElem?_append_right (by omega), Nat.add_sub_cancel_left]
+      exact ih (fun x hx => hm x (List.mem_cons_of_mem _ hx)) n
+
+/-- **row-major order, position by position**: in the flat sequence of a `c × h × w` tensor the
+    element with indices `(i, j, k)` sits at position `i·(h·w) + j·w + k` -/
+theorem flatten3_getElem? (t : List (List (List β))) (c h w : Nat) (d : Dims3 t c h w)
+    (i j k : Nat) (hj : j < h) (hk : k < w) :
+    (flatten3 t)[i * (h * w) + (j * w + k)]? = ((t[i]?).bind (·[j]?)).bind (·[k]?) := by
+  obtain ⟨_, hm⟩ := d
+  have hlt : j * w + k < h * w := by
+    calc j * w + k < j * w + w := by omega
+      _ = (j + 1) * w := by rw [Nat.succ_mul]
+      _ ≤ h * w := Nat.mul_le_mul_right w hj
+  unfold flatten3
+  rw [flatten_uniform_getElem? (t.map List.flatten) (h * w) _ i (j * w + k) hlt]
+  · rw [List.getElem?_map]
+    cases hi : t[i]? with
+    | none => simp
+    | some m =>
+      have hmem : m ∈ t := List.mem_of_getElem? hi
+      simp only [Option.map_some, Option.bind_some]
+      exact flatten_uniform_getElem? m w (hm m hmem).2 j k hk
+  · intro r hr
+    simp at hr
+    obtain ⟨m, hm1, hm2⟩ := hr
+    rw [← hm2, length_flatten_uniform m w (hm m hm1).2, (hm m hm1).1]
+
 end L
